@@ -278,5 +278,9 @@ def worker_main(pid, shard, nshards, seed, tier, outpath):
 
 
 if __name__ == '__main__':
+    # kill -USR1 <worker> writes the Python stacks to the worker's log
+    import faulthandler
+    import signal
+    faulthandler.register(signal.SIGUSR1, all_threads=True)
     worker_main(sys.argv[1], int(sys.argv[2]), int(sys.argv[3]),
                 int(sys.argv[4]), sys.argv[5], sys.argv[6])
